@@ -4,8 +4,8 @@ every one of its nine LRU caches evicts; replayed on `Model/MemLru.lean` (`mdkdr
 
 Line protocol: the store engine's op lines; a case starts with `backend lru <cache_size> <msg_cap>`.
 The implementation runs first; the driver gets `<op> ## <implementation's answer>` because the model is
-nondeterministic where the code iterates a HashMap at capacity (victim among equally old messages, order in
-which a restore puts secrets back): it keeps every state consistent with the answers so far and reports a
+nondeterministic where the code iterates a HashMap at capacity (the order in which a restore puts secrets back;
+until /repo 3a82aa4 also the victim among equally old messages): it keeps every state consistent with the answers so far and reports a
 disagreement when no state the model allows explains an answer."""
 import random, os, collections
 from . import common as C
@@ -278,10 +278,19 @@ def replay(prop, path):
     run(cases)
     corr = correspondence(cases)
     fails, stats = oracle(cases)
+    if prop == "C18":
+        # the pointer oracle of C18 on the tracked-pointer shape; a cap of one is the reported corner, not a failure of the check
+        pf, pstats = S.oracle_c18(cases)
+        for f in pf:
+            if f["case"]["mcap"] == 1 and f["signature"] == "pointer-not-head":
+                print("NOTE mem-cap-1-evicts-pointer-target reproduced:", f["what"][:300])
+            else:
+                fails.append(f)
+        stats = dict(stats, **{"c18_" + k: v for k, v in pstats.items()})
     for c in cases:
         print(f"== {c['id']} [{c['backend']}] {len(c['ops'])} operations")
         for k, (op, a, b, ev) in enumerate(zip(c["ops"], c["impl"], c["model"], c["evict"])):
-            mark = "" if S.same(a, b) else f"\n        MODEL: {b[:300]}"
+            mark = "" if S.same(plain(a), b) else f"\n        MODEL: {b[:300]}"
             evs = (" evicted " + ",".join(f"{CACHES[x]}:{y}" for x, y in ev)) if ev else ""
             print(f"  {k:3} {op[:70]:70} -> {a[:160]}{evs}{mark}")
     for f in corr:
@@ -318,6 +327,10 @@ def load_corpus():
                     cur["ops"].append(l)
     return cases
 
+def plain(a):
+    """the implementation's answer without the harness' own oracle mark (`ok ev:<id>!not-the-last-…`)"""
+    return a.split("!")[0] if a.startswith("ok ev:") else a
+
 def run(cases):
     """implementation first; then the model, told the implementation's answers"""
     text = "".join(f"backend {c['backend']}\n" + "\n".join(c["ops"]) + "\n" for c in cases)
@@ -325,7 +338,7 @@ def run(cases):
     lines = text.split("\n")[:-1]
     if len(impl) != len(lines):
         raise RuntimeError(f"memlru engine: implementation answered {len(impl)} of {len(lines)} lines rc={rc1}\n{err1[-800:]}")
-    fed = "".join(f"{l} ## {a}\n" for l, a in zip(lines, impl))
+    fed = "".join(f"{l} ## {plain(a)}\n" for l, a in zip(lines, impl))
     rc2, model, err2 = C.run_lines([C.DRV, "memlru"], fed)
     if len(model) != len(lines):
         raise RuntimeError(f"memlru engine: model answered {len(model)} of {len(lines)} lines rc={rc2}\n{err2[-800:]}")
@@ -349,7 +362,7 @@ def correspondence(cases):
     fails = []
     for c in cases:
         for k, (op, a, b) in enumerate(zip(c["ops"], c["impl"], c["model"])):
-            if not S.same(a, b):
+            if not S.same(plain(a), b):
                 fails.append({"kind": "corr", "signature": "corr:lru:" + op.split()[0],
                               "what": f"{c['id']}[{c['backend']}] step {k} `{op}`: impl={a[:300]} model={b[:300]}",
                               "replay_body": case_text(c, k, f"no state of Model/MemLru explains the implementation's answer at step {k}"), "case": c, "step": k})
@@ -369,8 +382,8 @@ def oracle(cases):
     * LRU exactness for group records (the cache whose puts this oracle can see), until the first successful rollback
       of the history: `find_group_by_mls_group_id(g)` answers the record last saved iff g is among the last
       `cache_size` distinct group ids that were saved (reads in between must not count as uses);
-    * the message a full group pushes out is one with the smallest `created_at` (computed by the harness from the
-      group's listing before and after the call)."""
+    * the message a full group pushes out is THE last message of the default listing order (minimum of created_at,
+      processed_at, id; computed by the harness from the group's listing before and after the call)."""
     fails = []
     stats = collections.Counter()
     def fail(c, k, sig, what):
@@ -386,8 +399,8 @@ def oracle(cases):
                 fail(c, k, f"panic:{t[0]}", "the call panicked"); continue
             if t[0] == "save_message" and out.startswith("ok ev:"):
                 stats["cap_victims"] += 1
-                if out.endswith("!not-the-oldest"):
-                    fail(c, k, "lru-cap-victim-not-oldest", f"max_messages_per_group reached: the message pushed out ({out}) is not (only) one with the smallest created_at of the group")
+                if "!" in out:
+                    fail(c, k, "lru-cap-victim-not-oldest", f"max_messages_per_group reached: the message pushed out ({out}) is not THE last message of the group's default order (minimum of created_at, processed_at, id)")
             if t[0] == "save_group" and out == "ok":
                 nid_now[t[1]] = t[2]
                 puts = [g for g in puts if g != t[1]] + [t[1]]
@@ -497,10 +510,83 @@ def second_engine(tier, seed):
                "op_histogram": dict(collections.Counter(o.split()[0] for c in cases for o in c["ops"]).most_common())}
     section.update({k: v for k, v in summ.items() if k != "distinct_nontrivial"})
     assumptions = ["memlru: the crate lru 0.16.3 behaves as Model/Lru.lean says (put/get/get_mut promote, peek/iter do not, put at capacity evicts the least recently used entry); tied by correspondence on this run's histories",
-                   "memlru: HashMap iteration order is taken as arbitrary (victim among equally old messages at the per-group cap; order in which a restore puts a group's secrets back): the driver keeps every model state consistent with the implementation's answers; theorems quantify over every order",
+                   "memlru: HashMap iteration order is taken as arbitrary (order in which a restore puts a group's secrets back; the victim of the per-group message cap is deterministic since /repo 3a82aa4, comparator chain regenerated as memCapVictimKeys / memCapVictimIsMin): the driver keeps every model state consistent with the implementation's answers; theorems quantify over every order",
                    "memlru: messages_cache (by message id) is read by no trait method; its content and evictions are modelled but cannot be compared",
                    "memlru: beyond the capacities the memory backend forgets records by design (documented LRU); this is outside C10's 'documented limits' and is reported as behaviour, not as a C10 failure: reported, not listed as findings: lru-index-ghost-after-collision (downstream of the open finding restore-nostr-id-collision; corpus/C10lru/index_ghost_after_collision.trace, counted under oracle_stats.ghost_after_collision), rollback-evicts-other-group (C09 beyond capacity, Lean witness_rollback_evicts_other_group)"]
     return ofails + wfails + corr + corr_w, section, assumptions
+
+def generate_tracked(seed, ncases):
+    """C18 under the message cap: the tracked-pointer shape of storeeng.Gen.tracked_case (fresh group, every save
+    followed by the pointer update mdk-core performs, optional snapshot / later epoch / rollback / invalidation) on the
+    memory backend built with max_messages_per_group 2..4 and MORE messages than the cap, timestamps from a pool of
+    three seconds so that equal created_at (and equal created_at + processed_at) are frequent; the listing and the
+    record are read after many of the saves"""
+    rng = random.Random(seed * 15485863 + 11)
+    cases = []
+    for i in range(ncases):
+        r = rng
+        cache, mcap = r.choice([2, 3, 4]), [2, 3, 4][i % 3]
+        ts = r.choice([[100, 101, 102], [100, 100, 101], [100]])
+        ops = ["save_group 1 11 3 0 1 0 - - - 0 0 0"]
+        ids = r.sample(MIDS, min(len(MIDS), mcap + r.randint(1, 7)))
+        seen = {}
+        def check():
+            ops.extend(["messages 1 10000 0 0", "find_group 1"])
+        for mid in ids:
+            c, pr = r.choice(ts), r.choice(ts)
+            seen[mid] = (c, pr)
+            ops.append(f"save_message {mid} 1 0 9 {c} {pr} 1 8 0 {r.choice(WRAPS)} 1 1")
+            ops.append(f"upd_last 1 {c} {pr} {mid}")
+            if r.random() < 0.5: check()
+            if r.random() < 0.2:
+                m2 = r.choice(list(seen)); c2, p2 = seen[m2][0], seen[m2][1] + r.choice([1, 2])
+                seen[m2] = (c2, p2)
+                ops.append(f"save_message {m2} 1 0 9 {c2} {p2} 1 8 0 {r.choice(WRAPS)} 1 1")
+                ops.append(f"upd_last 1 {c2} {p2} {m2}")
+        check()
+        if r.random() < 0.4:
+            ops.append("snap_create 1 1 2000")
+            for mid in [m for m in MIDS if m not in seen][:r.randint(1, 3)]:
+                c, pr = r.choice(ts), r.choice(ts)
+                ops.append(f"save_message {mid} 1 0 9 {c} {pr} 1 8 0 {r.choice(WRAPS)} 2 1")
+                ops.append(f"upd_last 1 {c} {pr} {mid}")
+            ops += ["snap_rollback 1 1", "inval_msgs 1 1"]
+            check()
+        cases.append({"id": f"lrutracked-{seed}-{i}", "backend": f"lru {cache} {mcap}", "cap": cache, "mcap": mcap, "ops": ops})
+    return cases
+
+def second_engine_c18(tier, seed):
+    """called by ./check C18 after the unbounded store run"""
+    n = 150 if tier == "quick" else 3000
+    cases = []
+    d = os.path.join(C.VERIF, "corpus", "C18lru")
+    for f in (sorted(os.listdir(d)) if os.path.isdir(d) else []):
+        if f.endswith(".trace"):
+            cases += load_file(os.path.join(d, f), "corpus:" + f)
+    cases += generate_tracked(seed, n)
+    run(cases)
+    corr = correspondence(cases)
+    ofails, ostats = S.oracle_c18(cases)
+    # a cap of ONE is outside the theorem's hypothesis: the stored head can be evicted by an older message (reported as
+    # mem-cap-1-evicts-pointer-target; reproduced by corpus/C18lru/cap1_pointer.trace on every run)
+    cap1 = [f for f in ofails if f["case"]["mcap"] == 1 and f["signature"] == "pointer-not-head"]
+    ofails = [f for f in ofails if f not in cap1]
+    ostats = dict(ostats, cap1_pointer_witness_reproduced=len(cap1))
+    cfails, cstats = oracle(cases)
+    cfails = [f for f in cfails if f["signature"] in ("lru-cap-victim-not-oldest", "lru-over-message-cap") or f["signature"].startswith("panic")]
+    summ = summarize(cases)
+    capped = [c for c in cases if any(code == 9 for st in c["evict"] for code, _ in st)]
+    ties = [c for c in capped if len({(o.split()[5]) for o in c["ops"] if o.startswith("save_message")}) < sum(1 for o in c["ops"] if o.startswith("save_message"))]
+    section = {"evaluations": len(cases), "distinct_nontrivial": len({(c["backend"], tuple(c["ops"])) for c in capped}),
+               "rule": "tracked-pointer histories (fresh group, each save_message followed by upd_last = Group::update_last_message_if_newer + save_group, listing and record read after many saves, optional snapshot / later-epoch saves / rollback / invalidation) on the memory backend built with max_messages_per_group 2..4 and more messages than the cap, timestamps drawn from three / two / one second(s); non-trivial = the cap pushed at least one message out; distinct by (capacities, op list)",
+               "traces_validated_against_impl": len(cases), "steps_compared": sum(len(c["ops"]) for c in cases),
+               "correspondence_disagreements": len(corr), "oracle_failures": len(ofails) + len(cfails),
+               "oracle_stats": dict(ostats, cap_victims=cstats.get("cap_victims", 0)), "histories_with_equal_created_at_at_cap": len(ties),
+               "message_cap_histogram": summ["message_cap_histogram"], "evictions_per_cache": summ["evictions_per_cache"],
+               "samples": [{"backend": c["backend"], "ops": c["ops"][:30]} for c in cases[-1:]]}
+    assumptions = ["memlru (C18): the pointer is maintained by the harness op upd_last = load the record, Group::update_last_message_if_newer, save_group — the call sequence mdk-core performs for every stored message; the history-level pointer behaviour inside mdk-core is C18's world part",
+                   "memlru (C18): proved for max_messages_per_group >= 2 (ptr_tracks_head_capped); with a cap of 1 an older new message evicts the stored head (witness_cap_one_evicts_head, corpus/C18/lru_cap1_pointer.trace): reported as mem-cap-1-evicts-pointer-target, not generated here"]
+    return ofails + cfails + corr, section, assumptions
 
 def summarize(cases):
     ev = collections.Counter()
